@@ -103,7 +103,8 @@ Definition run_typed (i : cinput) : sx :=
   | IWs sm k0 ops =>
       let so := fun k => if Nat.leb k0 k then WErr 0 else WOk in
       let '(rs, st) := run (mkC RClient sm false CUp) so (fun _ => WOk) st0 ops in
-      SL [SL (map result_sx rs); SS (stream so 0 (s_sock st))]
+      SL [SL (map result_sx rs); SS (stream so 0 (s_sock st));
+          strs_sx (map snd (q_items (s_queue st)))]
   end.
 
 Definition run_C08 : sx -> sx := with_input dec_input run_typed.
